@@ -120,15 +120,20 @@ End Rewrite.
                                                        string-in-table-position check also run on the comment-safe normalisation
      fx_noraw     C14_no_raw_text_fast_paths           the request text itself is never executed
      fx_bsq       C14_reject_backslash_before_quote    a backslash before a quote in a literal is refused
-     fx_single    C16_single_table_fast_path_keywords  the single-table fast path needs exactly one FROM keyword and no JOIN keyword *)
+     fx_single    C16_single_table_fast_path_keywords  the single-table fast path needs exactly one FROM keyword and no JOIN keyword
+     fx_cteq      C16_quoted_cte_declaration           a CTE declared with a quoted name is also known under its unquoted name *)
 Record fixset := { fx_with : bool; fx_dedup : bool; fx_scanner : bool; fx_denylist : bool; fx_noraw : bool; fx_bsq : bool;
-                   fx_single : bool }.
+                   fx_single : bool; fx_cteq : bool }.
 Definition fx_none : fixset :=
   {| fx_with := false; fx_dedup := false; fx_scanner := false; fx_denylist := false; fx_noraw := false; fx_bsq := false;
-     fx_single := false |}.
+     fx_single := false; fx_cteq := false |}.
+(* the code with every repair: the current source *)
+Definition fx_all : fixset :=
+  {| fx_with := true; fx_dedup := true; fx_scanner := true; fx_denylist := true; fx_noraw := true; fx_bsq := true;
+     fx_single := true; fx_cteq := true |}.
 Definition fx_of_bits (n : N) : fixset :=
   {| fx_with := N.testbit n 0; fx_dedup := N.testbit n 1; fx_scanner := N.testbit n 2; fx_denylist := N.testbit n 3;
-     fx_noraw := N.testbit n 4; fx_bsq := N.testbit n 5; fx_single := N.testbit n 6 |}.
+     fx_noraw := N.testbit n 4; fx_bsq := N.testbit n 5; fx_single := N.testbit n 6; fx_cteq := N.testbit n 7 |}.
 
 (* ------------------------------------------------------------------------------------ *)
 (* 2. the four table patterns and the CTE pattern                                         *)
@@ -367,6 +372,12 @@ Definition dot_or_call_at (rest : list tok) : bool :=
   | _ => false
   end.
 
+(* the CTE names the permission check and the converters exclude: extractCTENames, and (fx_cteq)
+   addResolvedCTENames - the unquoted name of every CTE whose declared name is an identifier placeholder *)
+Definition cte_set (q : bool) (names : names_t) (ts : list tok) : list bytes :=
+  let c := cte_names ts in
+  if q then c ++ flat_map (fun pn => if mem_bytes (lower (fst pn)) c then [lower (snd pn)] else []) names else c.
+
 (* ------------------------------------------------------------------------------------ *)
 (* 4. extractTableReferences                                                              *)
 (* ------------------------------------------------------------------------------------ *)
@@ -399,8 +410,8 @@ Fixpoint add_cands (seen : list bytes) (cs : list cand) : list bytes * list ref 
 
 Definition db_cand (names : names_t) (a b : bytes) : cand :=
   let db := resolve names a in let t := resolve names b in Some (db_key db t, (db, t)).
-Definition extract_refs (ex : bool) (names : names_t) (ts : list tok) : list ref :=
-  let ctes := cte_names ts in
+Definition extract_refs (q ex : bool) (names : names_t) (ts : list tok) : list ref :=
+  let ctes := cte_set q names ts in
   let c1 := map (fun x => db_cand names (fst x) (snd x)) (scan m_db_from ts) in
   let c2 := map (fun x => db_cand names (snd (fst x)) (snd x)) (scan m_db_join ts) in
   let c3 := map (fun x => simple_cand ex names ctes (fst x) (snd x)) (scan m_simple_from ts) in
@@ -458,8 +469,8 @@ Definition rw_simple_join (names : names_t) (ctes : list bytes) (db : bytes) (l 
   end.
 
 (* convertSQLToStoragePaths on the normalised tokens (between Phase 2 and the unmasking) *)
-Definition passes_nohdr (names : names_t) (ts : list tok) : list tok :=
-  let ctes := cte_names ts in
+Definition passes_nohdr (q : bool) (names : names_t) (ts : list tok) : list tok :=
+  let ctes := cte_set q names ts in
   let t1 := rewrite (rw_db_from names) ts in
   let t2 := rewrite (rw_db_join names) t1 in
   let t3 := rewrite (rw_simple_from names ctes k_default) t2 in
@@ -470,11 +481,11 @@ Definition with_test (same : bool) (lo : bytes) : bool :=
   if same then match cte_names (tokenize lo) with [] => false | _ => true end
   else has_sub k_with_sp lo.
 (* the CTE names of convertSQLToStoragePathsWithHeaderDB: only after "with " / (fx_with) always *)
-Definition hdr_ctes (same : bool) (ts : list tok) : list bytes :=
-  if same then cte_names ts else if has_sub k_with_sp (lower (untok ts)) then cte_names ts else [].
+Definition hdr_ctes (q same : bool) (names : names_t) (ts : list tok) : list bytes :=
+  if same then cte_set q names ts else if has_sub k_with_sp (lower (untok ts)) then cte_set q names ts else [].
 (* convertSQLToStoragePathsWithHeaderDB, slow path *)
-Definition passes_hdr (word : bool) (names : names_t) (hdr : bytes) (ts : list tok) : list tok :=
-  let ctes := hdr_ctes word ts in
+Definition passes_hdr (q word : bool) (names : names_t) (hdr : bytes) (ts : list tok) : list tok :=
+  let ctes := hdr_ctes q word names ts in
   let t3 := rewrite (rw_simple_from names ctes hdr) ts in
   rewrite (rw_simple_join names ctes hdr) t3.
 
@@ -489,9 +500,9 @@ Definition norm_p (s : bytes) : normed :=
   {| n_toks := tokenize t; n_text := t; n_masks := masks; n_fmasks := fm |}.
 Definition names_of (masks : list smask) : names_t := identifier_names masks.
 
-Definition convert_nohdr (s : bytes) : bytes :=
+Definition convert_nohdr (q : bool) (s : bytes) : bytes :=
   let n := norm_p s in
-  unmask (unmask_from (untok (passes_nohdr (names_of (n_masks n)) (n_toks n))) (n_fmasks n)) (n_masks n).
+  unmask (unmask_from (untok (passes_nohdr q (names_of (n_masks n)) (n_toks n))) (n_fmasks n)) (n_masks n).
 
 (* isSingleTableQuery(sqlLower) *)
 Fixpoint count_sub (pat l : bytes) (skip : nat) : nat :=
@@ -550,10 +561,10 @@ Definition fast_single_ok (kwd word : bool) (s : bytes) : bool :=
   let f := scan_features s in
   is_single_table kwd (lower s) && negb (with_test word (lower s)) && negb (contains_from_func s)
   && negb (f_quotes f) && negb (f_dash f) && negb (f_block f).
-Definition convert_hdr (kwd word : bool) (s hdr : bytes) : bytes :=
+Definition convert_hdr (q kwd word : bool) (s hdr : bytes) : bytes :=
   if fast_single_ok kwd word s then convert_single s hdr
   else let n := norm_p s in
-       unmask (unmask_from (untok (passes_hdr word (names_of (n_masks n)) hdr (n_toks n))) (n_fmasks n)) (n_masks n).
+       unmask (unmask_from (untok (passes_hdr q word (names_of (n_masks n)) hdr (n_toks n))) (n_fmasks n)) (n_masks n).
 
 (* which text reaches DuckDB: the three-way choice of getTransformedSQL[ForParallel] *)
 Inductive route := RawReadParquet | RawNoFrom | Transformed.
@@ -565,7 +576,7 @@ Definition route_of (noraw : bool) (s : bytes) : route :=
   else Transformed.
 Definition executed_text (fx : fixset) (s hdr : bytes) : bytes :=
   match route_of (fx_noraw fx) s with
-  | Transformed => match hdr with [] => convert_nohdr s | _ => convert_hdr (fx_single fx) (fx_with fx) s hdr end
+  | Transformed => match hdr with [] => convert_nohdr (fx_cteq fx) s | _ => convert_hdr (fx_cteq fx) (fx_single fx) (fx_with fx) s hdr end
   | _ => s
   end.
 
@@ -910,7 +921,7 @@ Definition gate_gen (fx : fixset) (s hdr : bytes) : outcome :=
                  if valid_identifier db then OShowTables db else OReject RjShowDb
              | None =>
                  let n := norm_p s in
-                 OExec (override_default hdr (extract_refs (fx_dedup fx) (names_of (n_masks n)) (n_toks n)))
+                 OExec (override_default hdr (extract_refs (fx_cteq fx) (fx_dedup fx) (names_of (n_masks n)) (n_toks n)))
                        (route_of (fx_noraw fx) s) (executed_text fx s hdr)
              end
   end.
@@ -1161,8 +1172,8 @@ Definition request_reads (fx : fixset) (s hdr : bytes) : list ref :=
   let names := names_of (n_masks n) in
   let segs := segs_of (n_toks n) in
   match hdr with
-  | [] => rewritten_refs names (cte_names (n_toks n)) k_default true segs
-  | _ => rewritten_refs names (hdr_ctes (fx_with fx) (n_toks n)) hdr false segs
+  | [] => rewritten_refs names (cte_set (fx_cteq fx) names (n_toks n)) k_default true segs
+  | _ => rewritten_refs names (hdr_ctes (fx_cteq fx) (fx_with fx) names (n_toks n)) hdr false segs
   end.
 
 (* correspondence: the guard classes and the oracle, evaluated on every generated case *)
@@ -1189,9 +1200,11 @@ Definition reads_checked (checked reads : list ref) : bool := forallb (covers ch
 Record read_case := { r_gate : gate_case; r_reads : list ref; r_existing : list ref }.
 Definition ref_mem (r : ref) (l : list ref) : bool := existsb (ref_eqb r) l.
 Definition refs_subset (a b : list ref) : bool := forallb (fun r => ref_mem r b) a.
+(* with the repairs of the validator and without raw routes the guard "no literal names a file" is not needed *)
+Definition guards_repaired (fx : fixset) : bool := fx_scanner fx && fx_denylist fx && fx_noraw fx && fx_bsq fx.
 Definition read_case_in_domain (c : read_case) : bool :=
   let g := r_gate c in
-  case_in_grammar g && case_pathlike_free g && case_header_ctes_ok g && case_slow_path g
+  case_in_grammar g && (guards_repaired (case_fx g) || case_pathlike_free g) && case_header_ctes_ok g && case_slow_path g
   && match route_of (fx_noraw (case_fx g)) (g_sql g) with Transformed => true | _ => false end.
 Definition read_case_agrees (c : read_case) : bool :=
   negb (read_case_in_domain c)
@@ -1222,7 +1235,7 @@ Definition read_case_flags (c : read_case) : N :=
              | _ => fx_with fx || has_sub k_with_sp (lower (untok ts)) || match cte_names ts with [] => true | _ => false end
              end in
   let slow := case_slow_path g in
-  let dom := ing && plf && hok && slow && match route_of (fx_noraw fx) s with Transformed => true | _ => false end in
+  let dom := ing && (guards_repaired fx || plf) && hok && slow && match route_of (fx_noraw fx) s with Transformed => true | _ => false end in
   let pred := if dom then filter (fun r => ref_mem r (r_existing c)) (request_reads fx s (g_hdr g)) else [] in
   bit (gate_case_agrees g) 0 + bit ing 1 + bit plf 2 + bit hok 3 + bit slow 4 + bit dom 5
   + bit (negb dom || refs_subset (r_reads c) pred) 6
